@@ -107,4 +107,44 @@ example : syncChildren (fun c => c < 10) [] [50, 4, 60] none = [50, 60] := by de
 example : save (.mk 0 [.mk 9 [], .mk 8 []] [.mk 1 [.mk 9 []] [], .mk 2 [] []])
     = .mk 0 [.mk 1 [], .mk 2 []] := by decide
 
+/-- **the managed block is replaced in place.**  When the children are `B ++ I ++ E` — a block `I` of managed elements between
+    unmanaged ones — and `before` is the first element of `E`, the children after the reconciliation are `B ++ wanted ++ E`,
+    whether or not there was a managed child before (an empty `I`: the new elements go in front of `before`, at the end when
+    `E` is empty too). -/
+theorem sync_block (managed : α → Bool) (wanted B I E : List α)
+    (hB : ∀ c ∈ B, isM managed wanted c = false) (hI : ∀ c ∈ I, isM managed wanted c = true)
+    (hE : ∀ c ∈ E, isM managed wanted c = false) (hEB : ∀ e, E.head? = some e → e ∉ B) :
+    syncChildren managed wanted (B ++ I ++ E) E.head? = B ++ wanted ++ E := by
+  have hkept : kept managed wanted (B ++ I ++ E) = B ++ E := by
+    unfold kept
+    rw [List.filter_append, List.filter_append]
+    rw [filter_all (l := B) (fun c hc => by simp [hB c hc]), filter_none (l := I) (fun c hc => by simp [hI c hc]),
+      filter_all (l := E) (fun c hc => by simp [hE c hc])]
+    simp
+  have hpos : pos managed wanted (B ++ I ++ E) E.head? = B.length := by
+    unfold pos
+    rw [List.append_assoc, findIdx?_prefix (I ++ E) hB]
+    cases I with
+    | nil =>
+      have : (([] : List α) ++ E).findIdx? (isM managed wanted) = none := by
+        rw [List.nil_append, List.findIdx?_eq_none_iff]
+        intro c hc; simp [hE c hc]
+      rw [this]
+      simp only [Option.map_none]
+      rw [show kept managed wanted (B ++ ([] ++ E)) = B ++ E by simpa using hkept]
+      cases E with
+      | nil => simp
+      | cons e E' =>
+        simp only [List.head?_cons]
+        have : e ∉ B := hEB e rfl
+        rw [List.idxOf_append, if_neg this]
+        simp
+    | cons i I' =>
+      have : ((i :: I') ++ E).findIdx? (isM managed wanted) = some 0 := by
+        simp [List.findIdx?_cons, hI i (by simp)]
+      rw [this]; simp
+  unfold syncChildren
+  simp only [hkept, hpos]
+  simp
+
 end Pyc.Props.C02
